@@ -471,11 +471,44 @@ def run_plan(plan, cfg=None):
     return _run_plan(plan)
 
 
+def _pregenerate(pre):
+    """Generate (and drop) kernels of a related problem: history for the generator."""
+    import signal
+
+    from returns.result import Success
+    from tensora.expression import parse_assignment
+    from tensora.format import parse_format
+    from tensora.generate import generate_module_tensora
+    from tensora.kernel_type import KernelType
+    from tensora.problem import make_problem
+
+    def _alarm(signum, frame):
+        raise GenerationTimeout()
+
+    old = signal.signal(signal.SIGALRM, _alarm)
+    signal.setitimer(signal.ITIMER_REAL, 4.0)
+    try:
+        pa = parse_assignment(pre["assignment"])
+        fm = {k: parse_format(v) for k, v in pre["formats"].items()}
+        if isinstance(pa, Success) and all(isinstance(f, Success) for f in fm.values()):
+            pr = make_problem(pa.unwrap(), {k: f.unwrap() for k, f in fm.items()})
+            if isinstance(pr, Success):
+                generate_module_tensora(pr.unwrap(), [KernelType[k] for k in pre["kinds"]])
+                return True
+    except (Exception, GenerationTimeout):
+        pass
+    finally:
+        signal.setitimer(signal.ITIMER_REAL, 0)
+        signal.signal(signal.SIGALRM, old)
+    return False
+
+
 def _run_plan(plan, cfg=None):
     """-> result dict: verdict ok|skipped|violation, violations, stats, digest, probes."""
     heap = SIM.heap
     res = {"verdict": "ok", "violations": [], "stats": {}, "probes": {}, "skip": None}
     _phase("generate")
+    npre = sum(1 for pre in plan.get("pre_generate") or [] if _pregenerate(pre))
     try:
         ks = KernelSet(plan["problem"]["assignment"], plan["problem"]["formats"], plan["capacity"],
                        bool(plan.get("backend_c")), plan.get("separate_modules"))
@@ -496,6 +529,8 @@ def _run_plan(plan, cfg=None):
         res["probes"] = {"kernels_compiled_from_c_text": 1}
     elif plan.get("separate_modules"):
         res["probes"] = {"kinds_generated_in_separate_modules": 1}
+    if npre:
+        res["probes"] = dict(res.get("probes") or {}, related_problems_generated_just_before=npre)
     twins = []
     stats = {}
     for t in (0, 1):
@@ -670,6 +705,11 @@ def _shrink_candidates(plan):
 
     if plan.get("separate_modules"):
         p = cp(); p["separate_modules"] = None; yield p
+    if plan.get("pre_generate"):
+        p = cp(); p["pre_generate"] = []; yield p
+        if len(plan["pre_generate"]) > 1:
+            for k in range(len(plan["pre_generate"])):
+                p = cp(); del p["pre_generate"][k]; yield p
     if plan["revalues"]:
         p = cp(); p["revalues"] = []; yield p
         if len(plan["revalues"]) > 1:
